@@ -52,7 +52,7 @@ Adv == l' = l + 1
 DocOf(seq) == [n \in NameSet |-> IF \E i \in DOMAIN seq : seq[i].name = n
                                  THEN LET i == CHOOSE j \in DOMAIN seq : seq[j].name = n IN [ver |-> seq[i].ver, la |-> seq[i].la]
                                  ELSE Nil]
-CacheOf(c) == [kind |-> c.kind, doc |-> DocOf(c.doc), wfail |-> FALSE]
+CacheOf(c) == [kind |-> c.kind, doc |-> DocOf(c.doc), wfail |-> c.wfail]
 Dl(x) == IF x = 0 THEN Nil ELSE now + x
 
 \* bookkeeping of outputs after a Store step, derived from `out'`
@@ -134,6 +134,7 @@ Silent ==
   /\ \/ S!InitRoundEnd \/ S!InitWake \/ S!PollFinish
      \/ \E n \in NameSet : (S!PollStep(n) /\ out'.ev = "expire")
      \/ \E k \in CallerSet : ((S!LookupEnter(k) /\ out'.ev = "join") \/ S!LookupGiveUp(k))
+     \/ (cfg.fileClient /\ \E n \in NameSet : (S!InitReq(n) \/ S!InitResp(n, FALSE)))    \* a file-backed client is not scripted
   /\ Owes /\ UNCHANGED l
 
 \* a new history: everything starts over (a fresh process)
